@@ -731,6 +731,18 @@ fn c13(tier: &str, thorough: bool) -> i32 {
             ctx.add("faults_delivered", st.faults_delivered);
         }
     }
+    // a failed call that the caller comes back to only after other streams have allocated
+    for v in [3u16, 4] {
+        for (name, max_buf, steps) in crate::e4::late_retry_workloads() {
+            let case = crate::e4::FaultCase { no_retry: true, generated: false, with_interrupted: false, workload: name.clone(), version: v, max_buf, steps, plan: vec![], kinds: vec![CallKind::Write, CallKind::Seek, CallKind::Flush], read_only: false };
+            let st = crate::e4::explore_from(ctx, &case, None, &[CallKind::Write, CallKind::Seek, CallKind::Flush], crate::e4::Pairs::None, 4);
+            ctx.note(format!("v{} {} (failed calls not retried at once): fault positions={} runs={} underlying calls executed={} faults delivered={}", v, name, st.positions, st.runs, st.calls, st.faults_delivered));
+            runs += st.runs;
+            calls += st.calls;
+            ctx.add("fault_positions", st.positions);
+            ctx.add("faults_delivered", st.faults_delivered);
+        }
+    }
     // large V3 files: the write-backs that add the first / the second DIFAT sector
     for (name, max_buf, steps, prefix_len) in crate::e4::large_mutating_workloads() {
         if !thorough && name.contains("second") {
